@@ -318,7 +318,7 @@ func init() {
 		Level: "exploration",
 		Rule: "metamorphic monitor (whole vs chunked): for each input, ParseFile fed by a scripted reader must equal Parse on the same bytes in error text, diagnostics text and Dump bytes. Partitions: EVERY 2-partition for inputs <= 400 bytes, one byte per read, random k-partitions, zero-byte reads at every step position (and at every offset for inputs <= 120 bytes), data together with EOF, and the real 4096-byte pages with the page boundary swept over a 64-byte window of the program (2 and 3 pages). " +
 			"Inputs: hand-picked ones for every lexical-failure kind, multi-byte characters in strings, comments, as U+0085/U+00A0 whitespace and as stray characters, two-character operators and escapes; the repository's testdata; generated programs (valid, with static errors, token-damaged) under hostile layout. " +
-			"distinct = hash(input, read log); non-trivial = at least two non-empty chunks were delivered Also: 170 non-consecutive zero-byte reads; irregular prime-sized reads; tokens longer than a read page (strings, identifiers, numbers, comments); pieces restarting at each long token; record-aligned inputs (long string statements and reads all multiples of 16/64/256/512 bytes, so buffer lengths recur); stray 4-byte characters, a byte order mark and bare Latin-1 blank bytes in the fixed inputs.",
+			"distinct = hash(input, read log); non-trivial = at least two non-empty chunks were delivered Also: 170 non-consecutive zero-byte reads; irregular prime-sized reads; tokens longer than a read page (strings, identifiers, numbers, comments); pieces restarting at each long token; files of another kind as text (bytecode dumps, other headers), a 14 kB input with syntax errors pages apart; record-aligned inputs (long string statements and reads all multiples of 16/64/256/512 bytes, so buffer lengths recur); stray 4-byte characters, a byte order mark and bare Latin-1 blank bytes in the fixed inputs.",
 		Assumptions:   []string{"Parse on the whole input is the reference", "thorough tier repeats the workload under the race detector build"},
 		MinNontrivial: 1000,
 		RaceAlso:      func(tier string) bool { return tier == "thorough" },
@@ -328,6 +328,29 @@ func init() {
 				if c.Mine(i) {
 					c.Begin(i)
 					c07Input(c, i, []byte(s), "fixed", c.Rand(i))
+				}
+				i++
+			}
+			// files of another kind given as text (this library's own dumps first), and inputs of several pages
+			// with syntax errors pages apart: the diagnostics must be those of Parse
+			extra := c06ForeignFiles()
+			{
+				var b strings.Builder
+				b.WriteString("print )\n")
+				for k := 0; b.Len() < 9000; k++ {
+					fmt.Fprintf(&b, "def blk \"n%d\" { f = %d } # filler filler filler filler\n", k, k)
+				}
+				b.WriteString("var = 2\nprint 3 +\n")
+				for k := 0; b.Len() < 14000; k++ {
+					fmt.Fprintf(&b, "print %d # filler filler filler filler filler filler\n", k)
+				}
+				b.WriteString("eval (\nprint 1\n")
+				extra = append(extra, []byte(b.String()))
+			}
+			for _, b := range extra {
+				if c.Mine(i) {
+					c.Begin(i)
+					c07Input(c, i, b, "foreign_files_and_multi_page_errors", c.Rand(i))
 				}
 				i++
 			}
